@@ -86,10 +86,65 @@ pub fn patterns(len: usize) -> Vec<Vec<f64>> {
 pub const LENS: [usize; 8] = [2, 3, 4, 5, 10, 25, 35, 40];
 pub const ALPHAS: [f64; 5] = [0.0, 0.3, 0.42, 0.55, 0.6];
 
+/// A vocoder duplicated in the middle of an utterance (`Clone`) must carry on exactly like the original: for every split
+/// point 1..5 of a 7-frame run (voiced at 200 Hz and unvoiced frames of 40 samples, so that pulse responses ring across frame
+/// borders; parameters alternating between `pa` and `pb`; with and without a low-pass stream) the frames rendered by the copy
+/// are compared bit for bit with the frames rendered by the original.  `configs`: (nmcp, stage, log gain, alpha, beta, pa, pb).
+pub fn clone_midstream(rep: &Report, configs: &[(usize, usize, bool, f64, f64, Vec<f64>, Vec<f64>)]) -> u64 {
+    let mut n = 0u64;
+    for (nmcp, stage, lg, alpha, beta, pa, pb) in configs {
+        for nl in [0usize, 3] {
+            let h = vec![0.25, 0.5, 0.25];
+            let lf0 = [200f64.ln(), 200f64.ln(), -1e10, 180f64.ln(), 220f64.ln(), -1e10, 200f64.ln()];
+            let fp = 40usize;
+            for split in 1..=5usize {
+                n += 1;
+                rep.eval(1);
+                rep.cmp(1);
+                let rp = json!({"vocoder_clone_after_frame": split, "nmcp": nmcp, "stage": stage, "log_gain": lg, "alpha": alpha, "beta": beta, "lpf_taps": nl, "rate": 16000, "fperiod": fp,
+                    "frame_lf0": lf0.iter().map(|x| format!("{:e}", x)).collect::<Vec<_>>(), "params_even_frames": pa, "params_odd_frames": pb});
+                let r = catch(|| {
+                    let mut v = Vocoder::new(*nmcp, nl, *stage, *lg, 16000, *alpha, *beta, 1.0, fp);
+                    let mut w: Option<Vocoder> = None;
+                    let (mut orig, mut copy) = (Vec::new(), Vec::new());
+                    for (i, l) in lf0.iter().enumerate() {
+                        if i == split {
+                            w = Some(v.clone());
+                        }
+                        let p = if i % 2 == 0 { pa } else { pb };
+                        let mut buf = vec![0.0; fp];
+                        v.synthesize(*l, p, &h[..nl], &mut buf);
+                        if let Some(w) = w.as_mut() {
+                            let mut b2 = vec![0.0; fp];
+                            w.synthesize(*l, p, &h[..nl], &mut b2);
+                            orig.extend(buf);
+                            copy.extend(b2);
+                        }
+                    }
+                    (orig, copy)
+                });
+                match r {
+                    Err(p) => rep.violation(format!("panic@{}", site_of(&p)), p, rp),
+                    Ok((orig, copy)) => {
+                        if !bits_eq(&orig, &copy) {
+                            let at = orig.iter().zip(&copy).position(|(a, b)| a.to_bits() != b.to_bits());
+                            rep.violation("clone-midstream", format!("a Vocoder cloned after frame {} does not continue like the original: first difference at sample {:?} after the split", split, at), rp);
+                        }
+                        if orig.iter().all(|x| *x == 0.0) {
+                            rep.guard(false, "clone part renders silence");
+                        }
+                    }
+                }
+            }
+        }
+    }
+    n
+}
+
 pub fn run(tier: Tier) -> i32 {
     let rep = Report::new("C06", tier, "model_checking");
     let nfreq = tier.pick(33usize, 257usize);
-    rep.set_rule("SCOPE: lattice of stationary mel-cepstra: vector lengths {2,3,4,5,10,25,35,40} x alpha {0,.3,.42,.55,.6} x c0 {-1,0,2} (and -12, 8, 12 on every 7th pattern) x shape patterns (each single coefficient +-, each adjacent pair, full {-1,0,1} product for length<=4) scaled to max|log H/K| in {0.5,1,2}; real Vocoder pulse response at F0=20Hz on a fresh vocoder, and on a stride of the lattice the last two frames of a run A,B,B,B (stationary after a change of gain and shape; also with A flat or with its upper half exactly zero) and, sparser, of slow glides from A to B over 300 and 2500 frames followed by B,B,B; oracle = DFT log-magnitude vs sum c_m cos(m w~) within 0.01 Np at every grid frequency; distinct = distinct (length, alpha, cepstrum); non-trivial = shape != 0");
+    rep.set_rule("SCOPE: lattice of stationary mel-cepstra: vector lengths {2,3,4,5,10,25,35,40} x alpha {0,.3,.42,.55,.6} x c0 {-1,0,2} (and -12, 8, 12 on every 7th pattern) x shape patterns (each single coefficient +-, each adjacent pair, full {-1,0,1} product for length<=4) scaled to max|log H/K| in {0.5,1,2}; real Vocoder pulse response at F0=20Hz on a fresh vocoder, and on a stride of the lattice the last two frames of a run A,B,B,B (stationary after a change of gain and shape; also with A flat or with its upper half exactly zero) and, sparser, of slow glides from A to B over 300 and 2500 frames followed by B,B,B; oracle = DFT log-magnitude vs sum c_m cos(m w~) within 0.01 Np at every grid frequency; plus vocoders cloned in the middle of a 7-frame run (every split point, 4 orders, with/without low-pass stream) compared bit for bit with the original; distinct = distinct (length, alpha, cepstrum); non-trivial = shape != 0");
     rep.assume("cepstra off the lattice and |log H/K| > 2 are not explored; the digital filter does not depend on the nominal sampling rate, which is raised (8k..2M) only to lengthen T0 until the truncated tail is < 1e-7 of the peak");
     let mut cases: Vec<(usize, f64, f64, f64, Vec<f64>)> = Vec::new();
     let lens: Vec<usize> = if tier == Tier::Thorough { (2..=40).collect() } else { LENS.to_vec() };
@@ -267,5 +322,15 @@ pub fn run(tier: Tier) -> i32 {
     rep.sample(json!({"vector_length": 4, "alpha": 0.42, "pattern": [0, 1, -1, 1], "scale_np": 2.0, "c0": 2.0}));
     rep.sample_last(json!({"vector_length": cases.last().unwrap().0, "alpha": cases.last().unwrap().1, "pattern": cases.last().unwrap().4}));
     rep.guard(alpha0.load(Ordering::Relaxed) > 0, "alpha = 0 branch never run");
+    {
+        let mut cfgs = Vec::new();
+        for (len, alpha) in [(2usize, 0.0f64), (5, 0.42), (25, 0.55), (40, 0.3)] {
+            let pa: Vec<f64> = (0..len).map(|m| if m == 0 { 0.3 } else { 0.8 / (m as f64 + 1.0) * if m % 2 == 0 { -1.0 } else { 1.0 } }).collect();
+            let pb: Vec<f64> = (0..len).map(|m| if m == 0 { -0.2 } else { 0.5 / (m as f64 + 1.0) }).collect();
+            cfgs.push((len, 0usize, false, alpha, 0.0, pa, pb));
+        }
+        let n = clone_midstream(&rep, &cfgs);
+        rep.note("vocoder_clone_cases", json!(n));
+    }
     rep.finish()
 }
